@@ -132,6 +132,16 @@ type LedgerObs struct {
 	Logs  []LogObs  `json:"logs"`
 	Vols  []VolB    `json:"vols"`
 	Agg   []AggB    `json:"agg"`
+	Flags Flags     `json:"flags"`
+}
+
+// Flags tells the specification which derived observables the ledger's feature set provides.
+type Flags struct {
+	Moves bool `json:"moves"` // MOVES_HISTORY = ON
+	Eff   bool `json:"eff"`   // effective volumes maintained
+	Hash  bool `json:"hash"`  // HASH_LOGS = SYNC
+	AMH   bool `json:"amh"`   // ACCOUNT_METADATA_HISTORY = SYNC
+	TMH   bool `json:"tmh"`   // TRANSACTION_METADATA_HISTORY = SYNC
 }
 
 type VolB struct {
